@@ -20,7 +20,8 @@ Record input := mk_input { i_shard : bool; i_rmin : Z; i_rmax : Z; i_limit : N; 
                            i_allocs : list (option (list N)); i_putf : list (N * N * outcome); i_pinf : list N;
                            i_stream : list block; i_root : N }.
 
-Definition mkb (c s : N) (l : list N) : block := mkblock c s l.
+Definition mkb (c s : N) (l : list N) : block := mkblock c s l false.
+Definition mkbs (c s : N) (l : list N) : block := mkblock c s l true.
 
 Fixpoint putf_lookup (fs : list (N * N * outcome)) (j d : N) : outcome :=
   match fs with
@@ -198,7 +199,7 @@ Fixpoint allocs_walk (everywhere : bool) (curr : list N) (t : list event) : bool
   | [] => true
   | EAlloc (Some a) :: r => allocs_walk everywhere a r
   | EPut c ds _ :: r =>
-      (subsetb ds curr || match c with CNode _ => listN_eqb ds [0] | _ => false end) && allocs_walk everywhere curr r
+      (subsetb ds curr || match c with CNode _ => subsetb ds [0] | _ => false end) && allocs_walk everywhere curr r
   | EPin p true :: r =>
       (match pty p with
        | TShard | TData => if everywhere then listN_eqb (pallocs p) [] else listN_eqb (pallocs p) curr
